@@ -266,9 +266,9 @@ Definition m_search (c : call) : res :=
           else if ((length w2 =? 0) || (length w2 <? length w1))%nat then RNil
           else
             let k1 := map (key_app (c_key c)) w1 in let k2 := map (key_app (c_key c)) w2 in
-            (* forward: offsets 0 .. len2-len1.  from-end: i runs from len2-1 down and stops at
-               i < len1, so the offsets are len2-len1 down to 1 — offset 0 is never tried *)
-            let offs := if c_from_end c then rev (seq 1 (length w2 - length w1)) else seq 0 (length w2 - length w1 + 1) in
+            (* forward: offsets 0 .. len2-len1.  from-end: i (the index of the last element of the
+               candidate) runs from len2-1 down and stops at i < len1-1: the offsets len2-len1 down to 0 *)
+            let offs := if c_from_end c then rev (seq 0 (length w2 - length w1 + 1)) else seq 0 (length w2 - length w1 + 1) in
             match find (fun o => prefix_match t k1 (skipn o k2)) offs with
             | Some o => RInt (Z.of_nat (s2 + o))
             | None => RNil
